@@ -37,7 +37,7 @@ ASSUMPTIONS = [
     "clifford_t_decomposition keeps a module-level cache of decompositions (documented: reused when at least as precise), so its output, "
     "not its verdict, may depend on earlier cases of the same process.",
 ]
-BUDGET = {"quick": {"examples": 300}, "thorough": {"examples": 24000, "shards": 16}}
+BUDGET = {"quick": {"examples": 270}, "thorough": {"examples": 24000, "shards": 16}}
 SHRINK_LISTS = ("ops",)
 
 PI = math.pi
@@ -213,7 +213,7 @@ def check_rs(spec):
     op = getattr(qp, spec["gate"])(theta, wires=w)
     ops = list(qp.ops.rs_decomposition(op, eps))
     feats = {"fn": "rs", "gate": spec["gate"], "eps_below_1e-7": eps < 1e-7, "eps_below_3e-7": eps < 3e-7, "fam": spec["fam"]}
-    sig = "rs"
+    sig = "rs:eps<1e-7" if eps < 1e-7 else "rs"
     if not ops or ops[-1].name != "GlobalPhase" or any(o.name == "GlobalPhase" for o in ops[:-1]):
         raise Viol("phase-last", f"rs: {[o.name for o in ops][-3:]}", sig=sig, features=feats)
     _gate_set(ops, [w], feats, sig, single=True)
@@ -248,6 +248,16 @@ def check_sk(spec):
     return Result(nontrivial, labels)
 
 
+def _has_ps_3or5(ops):
+    """Bucket label: the circuit contains PhaseShift(theta) (or ControlledPhaseShift(2.theta)) with theta = (3 or 5 mod 8).pi/4."""
+    for o in ops:
+        if o["op"] in ("PhaseShift", "ControlledPhaseShift"):
+            r = o["p"][0] / (PI / 4) / (2 if o["op"] == "ControlledPhaseShift" else 1)
+            if abs(r - round(r)) < 1e-6 and round(r) % 8 in (3, 5):
+                return True
+    return False
+
+
 def check_ct(spec):
     import pennylane as qp
 
@@ -255,8 +265,9 @@ def check_ct(spec):
     order = [specs.wire(w) for w in spec["wires"]]
     tape = specs.build_tape(spec)
     tape0 = specs.build_tape(spec)
-    feats = {"fn": "ct", "method": method}
-    sig = "ct:" + method
+    odd = _has_ps_3or5(spec["ops"])
+    feats = {"fn": "ct", "method": method, "phaseshift_3or5_pi4": odd}
+    sig = "ct:" + method + (":PhaseShift(3|5.pi/4)" if odd else "")
     batch, fn = qp.clifford_t_decomposition(tape, epsilon=eps, method=method)
     if len(batch) != 1:
         raise Viol("fanout", f"{len(batch)} tapes", sig=sig, features=feats)
